@@ -39,10 +39,10 @@ def main():
     rnd = random.Random(seed)
     out = lib.Outcome()
     # watchdog: the streams of a quick run take one to two minutes, of a thorough run up to half an hour.  A run that is still going
-    # after ten times that is not going to end (a library call that never returns, a loop that never yields): the correspondence
+    # after many times that is not going to end (a library call that never returns, a loop that never yields): the correspondence
     # no longer checks, and that is reported instead of hanging
     import threading
-    budget = float(os.environ.get("VERIF_BUDGET_S") or (1500 if a.tier == "quick" or a.replay else 5 * 3600))
+    budget = float(os.environ.get("VERIF_BUDGET_S") or (900 if a.tier == "quick" or a.replay else 5 * 3600))
     def expired():
         fr = sys._current_frames().get(threading.main_thread().ident)
         where = "".join(traceback.format_stack(fr)[-12:]) if fr else "?"
